@@ -544,6 +544,9 @@ def _from(ex, st, c, args, dty):
         return args[0]
     r = _conv(ex, st, args[0], dst)
     if r is None:
+        if _type_head(dst) == "Error":
+            # thiserror `#[from]` conversions: the payload of an error is never inspected by any obligation
+            return Adt("Error", "From" + _type_head(src), (args[0],))
         raise Unsupported(f"From<{src}> for {dst}")
     return r
 
@@ -556,6 +559,8 @@ def _norm(t):
 def _try_into(ex, st, c, args, dty):
     m = re.match(r"^TryInto<(.*)>$", c.trait.strip(), re.S)
     dst = m.group(1).strip()
+    if re.match(r"^\[u8; \d+\]$", dst):
+        return _vec_try_into_array(ex, st, c, args, dty)
     return _try_convert(ex, st, args[0], dst)
 
 
@@ -1142,7 +1147,12 @@ def _iter_items(ex, st, v):
     raise Unsupported(f"not an iterator: {type(v).__name__}")
 
 
-@reg("[T]::iter", "Vec::iter", "[T]::iter_mut")
+@reg("[T]::iter_mut", "Vec::iter_mut")
+def _slice_iter_mut(ex, st, c, args, dty):
+    raise Unsupported("iter_mut (iterator summaries hand out values, not places)")
+
+
+@reg("[T]::iter", "Vec::iter")
 def _slice_iter(ex, st, c, args, dty):
     return _mk_iter(items_of(ex, st, args[0]))
 
@@ -1548,3 +1558,489 @@ def valid_utf8():
     if not _valid:
         _valid.append(z3.Function("valid_utf8", ByteSeq, z3.BoolSort()))
     return _valid[0]
+
+
+# ---------------------------------------------------------------------------------------------
+# more Vec / slice operations on concrete-length vectors
+
+
+def _vec_arr(ex, st, r):
+    v = deref1(ex, st, r)
+    if isinstance(v, VecV) and isinstance(v.items, Arr):
+        return v.items
+    raise Unsupported("vector operation on a symbolic-length / byte vector")
+
+
+def _concrete_idx(ex, idx: BV, what):
+    e = z3.simplify(idx.e)
+    if is_concrete(e):
+        return e.as_long()
+    return None
+
+
+@reg("Vec::remove")
+def _vec_remove(ex, st, c, args, dty):
+    r, idx = args
+    a = _vec_arr(ex, st, r)
+    k = _concrete_idx(ex, idx, "remove")
+    n = len(a.elems)
+    if k is not None:
+        if k >= n:
+            return [(None, Panic("removal index out of bounds"))]
+        write_through(ex, st, r, VecV(Arr(a.elems[:k] + a.elems[k + 1:])))
+        return a.elems[k]
+    cases = []
+    for k in range(n):
+        def eff(s, k=k):
+            write_through(ex, s, r, VecV(Arr(a.elems[:k] + a.elems[k + 1:])))
+            return a.elems[k]
+        cases.append((ex.binop("Eq", idx, ex.mk_int(k, 64, False)).e, Effect(eff)))
+    cases.append((ex.binop("Ge", idx, ex.mk_int(n, 64, False)).e, Panic("removal index out of bounds")))
+    return cases
+
+
+@reg("Vec::insert")
+def _vec_insert(ex, st, c, args, dty):
+    r, idx, x = args
+    a = _vec_arr(ex, st, r)
+    k = _concrete_idx(ex, idx, "insert")
+    if k is None:
+        raise Unsupported("insert at symbolic index")
+    if k > len(a.elems):
+        return [(None, Panic("insertion index out of bounds"))]
+    write_through(ex, st, r, VecV(Arr(a.elems[:k] + (x,) + a.elems[k:])))
+    return UNIT
+
+
+@reg("Vec::swap_remove")
+def _vec_swap_remove(ex, st, c, args, dty):
+    r, idx = args
+    a = _vec_arr(ex, st, r)
+    k = _concrete_idx(ex, idx, "swap_remove")
+    if k is None:
+        raise Unsupported("swap_remove at symbolic index")
+    if k >= len(a.elems):
+        return [(None, Panic("swap_remove index out of bounds"))]
+    el = list(a.elems)
+    x = el[k]
+    el[k] = el[-1]
+    el.pop()
+    write_through(ex, st, r, VecV(Arr(tuple(el))))
+    return x
+
+
+@reg("Vec::truncate")
+def _vec_truncate(ex, st, c, args, dty):
+    r, n = args
+    a = _vec_arr(ex, st, r)
+    k = _concrete_idx(ex, n, "truncate")
+    if k is None:
+        raise Unsupported("truncate at symbolic length")
+    write_through(ex, st, r, VecV(Arr(a.elems[:k])))
+    return UNIT
+
+
+@reg("Vec::clear")
+def _vec_clear(ex, st, c, args, dty):
+    v = deref1(ex, st, args[0])
+    write_through(ex, st, args[0], VecV(Arr(()) if isinstance(v.items, Arr) else Bytes(z3.Empty(ByteSeq))))
+    return UNIT
+
+
+@reg("Vec::split_off")
+def _vec_split_off(ex, st, c, args, dty):
+    r, n = args
+    a = _vec_arr(ex, st, r)
+    k = _concrete_idx(ex, n, "split_off")
+    if k is None:
+        raise Unsupported("split_off at symbolic index")
+    if k > len(a.elems):
+        return [(None, Panic("split_off out of bounds"))]
+    write_through(ex, st, r, VecV(Arr(a.elems[:k])))
+    return VecV(Arr(a.elems[k:]))
+
+
+@reg("[T]::last", "Vec::last")
+def _slice_last(ex, st, c, args, dty):
+    n = ex.len_of(st, args[0])
+    ne = z3.simplify(n.e)
+    if not is_concrete(ne):
+        raise Unsupported("last on symbolic-length sequence")
+    if ne.as_long() == 0:
+        return Adt("Option", "None", ())
+    return _slice_get(ex, st, c, [args[0], ex.mk_int(ne.as_long() - 1, 64, False)], dty)
+
+
+@reg("[T]::split_first")
+def _slice_split_first(ex, st, c, args, dty):
+    items = items_of(ex, st, args[0])
+    if isinstance(items, Arr):
+        if not items.elems:
+            return Adt("Option", "None", ())
+        head, tail = items.elems[0], Arr(items.elems[1:])
+        return Effect(lambda s: Adt("Option", "Some", (Tup((ex.alloc(s, head, False), ex.alloc(s, tail, False))),)))
+    raise Unsupported("split_first on symbolic-length sequence")
+
+
+@reg("[T]::contains", "Vec::contains")
+def _slice_contains(ex, st, c, args, dty):
+    items = items_of(ex, st, args[0])
+    if isinstance(items, Arr):
+        return BoolV(z3.Or([struct_eq(ex, st, e, args[1]) for e in items.elems] + [z3.BoolVal(False)]))
+    raise Unsupported("contains on symbolic-length sequence")
+
+
+@reg("[T]::swap", "Vec::swap")
+def _slice_swap(ex, st, c, args, dty):
+    r, i, j = args
+    v = deref1(ex, st, r)
+    isvec = isinstance(v, VecV)
+    a = v.items if isvec else v
+    ki, kj = _concrete_idx(ex, i, "swap"), _concrete_idx(ex, j, "swap")
+    if not isinstance(a, Arr) or ki is None or kj is None:
+        raise Unsupported("swap with symbolic operands")
+    el = list(a.elems)
+    if ki >= len(el) or kj >= len(el):
+        return [(None, Panic("index out of bounds"))]
+    el[ki], el[kj] = el[kj], el[ki]
+    nv = Arr(tuple(el))
+    write_through(ex, st, r, VecV(nv) if isvec else nv)
+    return UNIT
+
+
+@reg("Vec::extend_from_slice")
+def _vec_extend_from_slice(ex, st, c, args, dty):
+    return _vec_extend(ex, st, c, args, dty)
+
+
+@reg("Vec::first")
+def _vec_first(ex, st, c, args, dty):
+    return _slice_get(ex, st, c, [args[0], ex.mk_int(0, 64, False)], dty)
+
+
+@reg_pred(lambda c: c.trait is not None and _type_head(c.trait) == "Iterator" and c.method == "next" and _type_head(c.qself or "") in ("Iter", "IntoIter", "Rev", "Cloned", "Copied", "Skip", "Take", "Chain", "Enumerate", "Zip", "Map", "IterMut"))
+def _iter_next(ex, st, c, args, dty):
+    r = args[0]
+    it = deref1(ex, st, r)
+    if isinstance(it, LibV) and it.kind == "iter":
+        items = it.data[0]
+        if isinstance(items, Arr):
+            if not items.elems:
+                return Adt("Option", "None", ())
+            write_through(ex, st, r, LibV("iter", (Arr(items.elems[1:]),)))
+            return Adt("Option", "Some", (items.elems[0],))
+        if isinstance(items, Bytes):
+            L = z3.Length(items.s)
+            ne = L > 0
+
+            def adv(s):
+                write_through(ex, s, r, LibV("iter", (Bytes(z3.SubSeq(items.s, 1, L - 1)),)))
+                return Adt("Option", "Some", (BV(items.s[0], 8, False),))
+            return [(ne, Effect(adv)), (z3.Not(ne), Adt("Option", "None", ()))]
+    if isinstance(it, LibV) and it.kind == "map":
+        inner_cell = ex.alloc(st, it.data[0])
+        res = _iter_next(ex, st, c, [inner_cell], dty)
+        if isinstance(res, Adt) and res.variant == "None":
+            return res
+        if isinstance(res, Adt) and res.variant == "Some":
+            new_inner = ex.read(st, inner_cell.cell, ())
+            write_through(ex, st, r, LibV("map", (new_inner, it.data[1])))
+            cases = call_closure(ex, st, it.data[1], [res.fields[0]])
+            return Forked([(s, v if isinstance(v, Panic) else Adt("Option", "Some", (v,))) for s, v in cases])
+    raise Unsupported(f"next on {it!r}"[:100])
+
+
+# ---------------------------------------------------------------------------------------------
+# big-endian / little-endian byte representations of BigInt magnitudes, pallas integer wrappers
+
+_be = {}
+
+
+def be_bytes_fn():
+    if "f" not in _be:
+        _be["f"] = z3.Function("be_bytes", z3.IntSort(), ByteSeq)  # minimal big-endian bytes of a natural (0 -> [0])
+        _be["v"] = z3.Function("be_value", ByteSeq, z3.IntSort())  # value of big-endian bytes
+        _be["lf"] = z3.Function("le_bytes", z3.IntSort(), ByteSeq)
+        _be["lv"] = z3.Function("le_value", ByteSeq, z3.IntSort())
+    return _be
+
+
+def seq_units(s):
+    """list of z3 BV8 if `s` is syntactically a concatenation of units (concrete length), else None"""
+    s = z3.simplify(s)
+    out = []
+
+    def walk(e):
+        k = e.decl().kind() if z3.is_app(e) else None
+        if k == z3.Z3_OP_SEQ_CONCAT:
+            return all(walk(c) for c in e.children())
+        if k == z3.Z3_OP_SEQ_UNIT:
+            out.append(e.arg(0))
+            return True
+        if k == z3.Z3_OP_SEQ_EMPTY:
+            return True
+        return False
+    return out if walk(s) else None
+
+
+def be_value(s, little=False):
+    f = be_bytes_fn()
+    s2 = z3.simplify(s)
+    if z3.is_app(s2) and s2.decl().eq(f["lf" if little else "f"]):
+        return s2.arg(0)
+    us = seq_units(s2)
+    if us is not None:
+        if little:
+            us = list(reversed(us))
+        tot = z3.IntVal(0)
+        for b in us:
+            tot = tot * 256 + z3.BV2Int(b, False)
+        return z3.simplify(tot)
+    return f["lv" if little else "v"](s)
+
+
+def _sign_adt(e):
+    return [(e < 0, Adt("Sign", "Minus", ())), (e == 0, Adt("Sign", "NoSign", ())), (e > 0, Adt("Sign", "Plus", ()))]
+
+
+def _to_bytes(little):
+    def h(ex, st, c, args, dty):
+        n = as_big(ex, st, args[0]).e
+        mag = z3.If(n >= 0, n, -n)
+        f = be_bytes_fn()
+        bs = VecV(Bytes(f["lf" if little else "f"](mag)))
+        return [(cond, Tup((sg, bs))) for cond, sg in _sign_adt(n)]
+    return h
+
+
+TABLE["BigInt::to_bytes_be"] = _to_bytes(False)
+TABLE["BigInt::to_bytes_le"] = _to_bytes(True)
+
+
+def _from_bytes(little):
+    def h(ex, st, c, args, dty):
+        sg = args[0]
+        items = items_of(ex, st, args[1])
+        if isinstance(items, Arr):
+            units = [e.e if not z3.is_int(e.e) else z3.Int2BV(e.e, 8) for e in items.elems]
+            if little:
+                units = list(reversed(units))
+            tot = z3.IntVal(0)
+            for b in units:
+                tot = tot * 256 + z3.BV2Int(b, False)
+            m = tot
+        elif isinstance(items, Bytes):
+            m = be_value(items.s, little)
+        else:
+            raise Unsupported("from_bytes of non-bytes")
+        if isinstance(sg, Adt) and sg.variant == "Plus":
+            return BigI(m)
+        if isinstance(sg, Adt) and sg.variant == "Minus":
+            return BigI(-m)
+        if isinstance(sg, Adt) and sg.variant == "NoSign":
+            return BigI(z3.IntVal(0))
+        raise Unsupported("from_bytes with symbolic sign")
+    return h
+
+
+TABLE["BigInt::from_bytes_be"] = _from_bytes(False)
+TABLE["BigInt::from_bytes_le"] = _from_bytes(True)
+
+
+@reg("<i128 as TryInto>::try_into")
+def _i128_try_into_pallas(ex, st, c, args, dty):
+    m = re.match(r"^TryInto<(.*)>$", (c.trait or "").strip(), re.S)
+    dst = m.group(1).strip() if m else ""
+    if _type_head(dst) == "Int":  # pallas_codec::utils::Int = CBOR major types 0/1: -2^64 .. 2^64-1
+        x = ex.to_int_expr(args[0])
+        fits = z3.And(x >= -(1 << 64), x <= (1 << 64) - 1)
+        return [(fits, Adt("Result", "Ok", (LibV("pallas_int", (x,)),))), (z3.Not(fits), Adt("Result", "Err", (fresh_obj("interr"),)))]
+    return _try_convert(ex, st, args[0], dst)
+
+
+@reg("<i128 as From>::from")
+def _i128_from(ex, st, c, args, dty):
+    v = deref(ex, st, args[0])
+    if isinstance(v, LibV) and v.kind == "pallas_int":
+        return BV(v.data[0], 128, True)
+    if isinstance(v, BV):
+        return ex.cast_int(v, 128, True)
+    raise Unsupported(f"i128::from({v!r})"[:80])
+
+
+@reg("<Vec as Into>::into")
+def _vec_into(ex, st, c, args, dty):
+    m = re.match(r"^Into<(.*)>$", (c.trait or "").strip(), re.S)
+    dst = _type_head(m.group(1)) if m else ""
+    if dst == "BoundedBytes":
+        return Adt("BoundedBytes", None, (args[0],))
+    if dst in ("MaybeIndefArray",):
+        return Adt("MaybeIndefArray", "Def", (args[0],))
+    if dst in ("KeyValuePairs",):
+        return Adt("KeyValuePairs", "Def", (args[0],))
+    if dst == "Vec":
+        return args[0]
+    raise Unsupported(f"Vec into {dst}")
+
+
+@reg("<BoundedBytes as Deref>::deref", "<BoundedBytes as Into>::into", "<BoundedBytes as From>::from")
+def _bounded_bytes_deref(ex, st, c, args, dty):
+    r = args[0]
+    if isinstance(r, Ref):
+        return Ref(r.cell, r.proj + (("field", 0),))
+    if isinstance(r, Adt) and r.ty == "BoundedBytes":
+        return r.fields[0]
+    if isinstance(r, VecV):
+        return Adt("BoundedBytes", None, (r,))
+    raise Unsupported("BoundedBytes deref")
+
+
+@reg("<MaybeIndefArray as Deref>::deref", "<KeyValuePairs as Deref>::deref")
+def _mia_deref(ex, st, c, args, dty):
+    r = args[0]
+    v = deref1(ex, st, r)
+    if isinstance(v, Adt) and isinstance(r, Ref):
+        return Ref(r.cell, r.proj + (("downcast", v.variant), ("field", 0)))
+    raise Unsupported("MaybeIndefArray deref")
+
+
+@reg("MaybeIndefArray::to_vec")
+def _mia_to_vec(ex, st, c, args, dty):
+    return args[0].fields[0]
+
+
+@reg("<PlutusData as PartialEq>::eq", "<PlutusData as PartialEq>::ne")
+def _plutus_data_eq(ex, st, c, args, dty):
+    """pallas compares PlutusData through Ord: structural on the CBOR-level representation; here: equality of the
+    mathematical Data value (constructor number, integer value, bytes, element-wise) — what equalsData specifies."""
+    from specs import data as SD
+    w = ex.world
+    a, b = deref(ex, st, args[0]), deref(ex, st, args[1])
+    e = SD.eq(SD.decode(w, ex, a), SD.decode(w, ex, b))
+    return BoolV(z3.Not(e) if c.method == "ne" else e)
+
+
+@reg("RangeInclusive::new")
+def _range_incl_new(ex, st, c, args, dty):
+    return Adt("RangeInclusive", None, (args[0], args[1], BoolV(z3.BoolVal(False))))
+
+
+@reg("RangeInclusive::contains", "Range::contains")
+def _range_contains(ex, st, c, args, dty):
+    r = deref(ex, st, args[0])
+    x = deref(ex, st, args[1])
+    lo, hi = r.fields[0], r.fields[1]
+    if r.ty == "RangeInclusive":
+        return BoolV(z3.And(ex.binop("Ge", x, lo).e, ex.binop("Le", x, hi).e))
+    return BoolV(z3.And(ex.binop("Ge", x, lo).e, ex.binop("Lt", x, hi).e))
+
+
+@reg("Option::unwrap_or_else")
+def _opt_unwrap_or_else(ex, st, c, args, dty):
+    v = args[0]
+    if v.variant == "Some":
+        return v.fields[0]
+    return Forked(call_closure(ex, st, args[1], []))
+
+
+@reg("Result::unwrap_or_else")
+def _res_unwrap_or_else(ex, st, c, args, dty):
+    v = args[0]
+    if v.variant == "Ok":
+        return v.fields[0]
+    return Forked(call_closure(ex, st, args[1], [v.fields[0]]))
+
+
+@reg("Option::unwrap_or_default", "Result::unwrap_or_default")
+def _unwrap_or_default(ex, st, c, args, dty):
+    v = args[0]
+    if v.variant in ("Some", "Ok"):
+        return v.fields[0]
+    raise Unsupported("unwrap_or_default on the failing variant")
+
+
+# ---------------------------------------------------------------------------------------------
+# hashing (cryptoxide): digests are uninterpreted functions of the input with their fixed output length
+
+_HASH_LEN = {"Sha256": 32, "Sha3_256": 32, "Keccak256": 32, "Ripemd160": 20, "Sha512": 64}
+_hash_fns = {}
+
+
+def hash_fn(name):
+    if name not in _hash_fns:
+        _hash_fns[name] = z3.Function("hash_" + name, ByteSeq, ByteSeq)
+    return _hash_fns[name]
+
+
+@reg_pred(lambda c: c.method == "new" and len(c.segs) >= 2 and c.segs[-2] in _HASH_LEN)
+def _hasher_new(ex, st, c, args, dty):
+    return LibV("hasher", (c.segs[-2], _HASH_LEN[c.segs[-2]], z3.Empty(ByteSeq)))
+
+
+@reg("Blake2b::new")
+def _blake2b_new(ex, st, c, args, dty):
+    n = z3.simplify(args[0].e)
+    if not is_concrete(n):
+        raise Unsupported("Blake2b::new with symbolic output size")
+    return LibV("hasher", (f"Blake2b{n.as_long()}", n.as_long(), z3.Empty(ByteSeq)))
+
+
+@reg_pred(lambda c: c.trait is not None and _type_head(c.trait) == "Digest" and c.method in ("input", "output_bytes", "result", "output_bits"))
+def _digest_ops(ex, st, c, args, dty):
+    r = args[0]
+    h = deref1(ex, st, r)
+    name, n, acc = h.data
+    if c.method == "input":
+        add = items_of(ex, st, args[1])
+        if isinstance(add, Str):
+            add = Bytes(add.s)
+        if not isinstance(add, Bytes):
+            raise Unsupported("hash input of non-bytes")
+        write_through(ex, st, r, LibV("hasher", (name, n, z3.Concat(acc, add.s))))
+        return UNIT
+    if c.method == "output_bytes":
+        return ex.mk_int(n, 64, False)
+    if c.method == "output_bits":
+        return ex.mk_int(n * 8, 64, False)
+    out = args[1]
+    digest = hash_fn(name)(acc)
+    st.pc.append(z3.Length(digest) == n)
+    tgt = deref1(ex, st, out)
+    if isinstance(tgt, VecV):
+        write_through(ex, st, out, VecV(Bytes(digest)))
+    elif isinstance(tgt, Arr):
+        write_through(ex, st, out, Arr(tuple(BV(digest[i], 8, False) for i in range(len(tgt.elems)))))
+    else:
+        raise Unsupported("digest output target")
+    return UNIT
+
+
+@reg_pred(lambda c: c.trait is not None and _type_head(c.trait) == "TryInto" and c.method == "try_into" and re.match(r"^TryInto<\[u8; \d+\]>$", c.trait.strip()) is not None)
+def _vec_try_into_array(ex, st, c, args, dty):
+    n = int(re.match(r"^TryInto<\[u8; (\d+)\]>$", c.trait.strip()).group(1))
+    v = args[0]
+    it = v.items if isinstance(v, VecV) else v
+    if not isinstance(it, Bytes):
+        raise Unsupported("try_into array of non-bytes")
+    ok = z3.Length(it.s) == n
+    arr = Arr(tuple(BV(it.s[i], 8, False) for i in range(n)))
+    return [(ok, Adt("Result", "Ok", (arr,))), (z3.Not(ok), Adt("Result", "Err", (v,)))]
+
+
+_ed = []
+
+
+@reg("ed25519::verify")
+def _ed25519_verify(ex, st, c, args, dty):
+    if not _ed:
+        _ed.append(z3.Function("ed25519_verify", ByteSeq, ByteSeq, ByteSeq, z3.BoolSort()))
+    from props.c04 import bytes_of_arr  # local import: byte array -> seq
+
+    def seq_of(v):
+        it = items_of(ex, st, v)
+        if isinstance(it, Bytes):
+            return it.s
+        if isinstance(it, Arr):
+            return bytes_of_arr(it)
+        raise Unsupported("ed25519 argument")
+    return BoolV(_ed[0](seq_of(args[0]), seq_of(args[1]), seq_of(args[2])))
